@@ -10,4 +10,5 @@ git -C /repo worktree add -q "$W/repo" HEAD || exit 2
 (cd /repo && git ls-files --others --exclude-standard | grep -E '(export[a-z0-9_]*_verif|_verif)\.go$' | while read f; do mkdir -p "$W/repo/$(dirname "$f")"; cp "$f" "$W/repo/$f"; done)
 if ! git -C "$W/repo" apply "$PATCH"; then echo "MUTEST: patch does not apply"; git -C /repo worktree remove --force "$W/repo"; rm -rf "$W"; exit 3; fi
 (cd "$W/verif" && VERIF_REPO="$W/repo" ./check "$ID" "$TIER" 2>&1 | tail -${MUTEST_TAIL:-6})
+if [ -n "$MUTEST_REPLAY_OUT" ]; then r=$(ls "$W/verif/replays/"*.json 2>/dev/null | head -1); [ -n "$r" ] && cp "$r" "$MUTEST_REPLAY_OUT"; fi
 if [ -n "$MUTEST_KEEP" ]; then echo "kept $W"; else git -C /repo worktree remove --force "$W/repo"; rm -rf "$W"; fi
